@@ -387,9 +387,75 @@ def nontrivial(case):
         act or case["prep"]["kind"] != "vacuum")
 
 
+EULER_GATES = {"QuadraticPhase", "Squeezing2", "GaussianTransform"}
+MATRIX_GATES = {"Displacement", "PositionDisplacement", "MomentumDisplacement", "Squeezing",
+                "CubicPhase"}
+
+# Confirmed findings: the trigger region is skipped (and counted) by the search parts and
+# checked by the part `findings` under one bucket per root cause.
+REGIONS = {
+    "C09:PF:tf:euler-gates:polar-conjugated": [
+        {"sim": "PF", "conn": "tf", "mode": "eager", "d": 1, "cutoff": 3, "dtype": "f64",
+         "prep": {"kind": "vacuum"},
+         "gates": [{"g": "QuadraticPhase", "modes": [0], "p": {"s": 0.25}}]},
+        {"sim": "PF", "conn": "tf", "mode": "eager", "d": 2, "cutoff": 4, "dtype": "f64",
+         "prep": {"kind": "vacuum"},
+         "gates": [{"g": "Squeezing2", "modes": [0, 1], "p": {"r": 0.3, "phi": 0.7}}]},
+        {"sim": "PF", "conn": "tf", "mode": "decorated", "d": 2, "cutoff": 4, "dtype": "f64",
+         "prep": {"kind": "number", "occ": [1, 0]},
+         "gates": [{"g": "GaussianTransform", "modes": [1, 0], "p": {"seed": 5, "rmax": 0.3}}]},
+    ],
+    "C09:PF:tf:graph-modes:float32:active-gate-matrix:raises": [
+        {"sim": "PF", "conn": "tf", "mode": "decorated", "d": 1, "cutoff": 3, "dtype": "f32",
+         "prep": {"kind": "vacuum"},
+         "gates": [{"g": "Displacement", "modes": [0], "p": {"r": 0.2, "phi": 0.1}}]},
+        {"sim": "PF", "conn": "tf", "mode": "function", "d": 1, "cutoff": 3, "dtype": "f32",
+         "prep": {"kind": "vacuum"},
+         "gates": [{"g": "Squeezing", "modes": [0], "p": {"r": 0.2, "phi": 0.1}}]},
+        {"sim": "PF", "conn": "tf", "mode": "decorated", "d": 1, "cutoff": 3, "dtype": "f32",
+         "prep": {"kind": "vacuum"},
+         "gates": [{"g": "CubicPhase", "modes": [0], "p": {"gamma": 0.05}}]},
+    ],
+    "C09:PF:tf:cutoff1:squeezing:tf.range": [
+        {"sim": "PF", "conn": "tf", "mode": "eager", "d": 1, "cutoff": 1, "dtype": "f64",
+         "prep": {"kind": "vacuum"},
+         "gates": [{"g": "Squeezing", "modes": [0], "p": {"r": 0.1, "phi": 0.0}}]},
+    ],
+}
+
+
+def region_of(case):
+    names = {g["g"] for g in case["gates"]}
+    if case["conn"] == "tf":
+        if case.get("cutoff") == 1 and names & (EULER_GATES | {"Squeezing"}):
+            return "C09:PF:tf:cutoff1:squeezing:tf.range"
+        if names & EULER_GATES:
+            return "C09:PF:tf:euler-gates:polar-conjugated"
+        if (case["mode"] in ("decorated", "function") and case.get("dtype") == "f32"
+                and names & MATRIX_GATES):
+            return "C09:PF:tf:graph-modes:float32:active-gate-matrix:raises"
+    return None
+
+
+def region_cases(tier):
+    return [{**c, "_region": b} for b, cs in REGIONS.items() for c in cs]
+
+
+def prop_region(case, ctx):
+    try:
+        prop_program(case, ctx)
+    except Violation as v:
+        raise Violation(case["_region"], f"[{v.bucket}] {v.message}")
+
+
 def prop_program(case, ctx):
     sim, conn, mode = case["sim"], case["conn"], case["mode"]
     tag = f"C09:{sim}:{conn}:{mode}"
+    region = region_of(case)
+    if region and not case.get("_region"):
+        ctx.exclude(region)
+        ctx.case(case, False, ["excluded_by_finding"])
+        return
     if conn not in SIM_CONNS[sim]:
         raise harness.HarnessError(f"{sim} does not document connector {conn}")
     core = core_observables(case)
@@ -444,6 +510,8 @@ def prop_program(case, ctx):
 def _gate_names(sim, conn, mode):
     names = list(BOSON_GATES[sim]) if sim in BOSON_GATES else list(FERMI_GATES[sim])
     names = [n for n in names if (sim, conn, n) not in EXCLUDED]
+    if conn == "tf":  # region of a confirmed finding, checked by the part `findings`
+        names = [n for n in names if n not in EULER_GATES]
     if mode in ("function", "jit"):
         names = [n for n in names if n in TRACEABLE[(sim, conn, mode)]]
     return names
@@ -517,6 +585,8 @@ def program_case(draw, conn, mode, sims):
         cutoff = draw(st.integers(1, 4 if heavy else (5 if conn == "jax" else 6)))
         prep = draw(progs.prep(d, min(cutoff - 1, 3)))
         gates = draw(st.lists(progs.gate(d, names, scale=0.6), min_size=1, max_size=maxg))
+        if conn == "tf" and cutoff == 1 and any(g["g"] == "Squeezing" for g in gates):
+            cutoff = 2  # region of a confirmed finding (tf.range), see REGIONS
         case.update(d=d, cutoff=cutoff, prep=prep, gates=gates,
                     hbar=draw(st.sampled_from([2.0, 2.0, 1.0, 3.7])))
     elif sim == "G":
@@ -545,6 +615,9 @@ def program_case(draw, conn, mode, sims):
                 case["cutoff"] = d + 1
     case["dtype"] = draw(st.sampled_from(["f64", "f64", "f64", "f32"])) \
         if sim in ("PF", "G", "P") else "f64"
+    if (conn == "tf" and compiled and case["dtype"] == "f32"
+            and any(g["g"] in MATRIX_GATES for g in case["gates"])):
+        case["dtype"] = "f64"  # region of a confirmed finding, see REGIONS
     if heavy and case["dtype"] == "f64":
         case["trace_arrays"] = draw(st.booleans())
     return case
@@ -687,6 +760,23 @@ def trace_part():
                 budget_s={"quick": 60, "thorough": 1500})
 
 
+def findings_part():
+    def run(ctx, tier):
+        sh = _shares(ctx.nshards)
+        seen: set = set()
+        for c in region_cases(tier):
+            slice_ = "prog_tf_eager" if c["conn"] == "tf" else "prog_jax_eager"
+            if min(sh[slice_]) != ctx.shard:
+                continue
+            v = harness.guarded(prop_region, c, ctx, seen)
+            if v is not None:
+                ctx.add_failure("findings", v.bucket, c, v.message)
+                seen.add(v.bucket)
+
+    return Part("findings", prop_region, kind="custom", run=run,
+                budget_s={"quick": 200, "thorough": 600})
+
+
 def parts(tier):
     B = {"quick": 150, "thorough": 3000}
     return [
@@ -707,4 +797,5 @@ def parts(tier):
         sliced("prim_jax", prop_primitive, prim_case("jax"),
                {"quick": 300, "thorough": 5000}, B),
         trace_part(),
+        findings_part(),
     ]
